@@ -804,9 +804,23 @@ class Executor:
         """Evaluate an expression that may fork (conditional expression): (merged value,
         [(branch condition, state)])."""
         npc = len(s2.pc)
-        res = self.eval(node, s2)
-        if any(isinstance(ps, tuple) for ps, _ in res):
-            raise Unsupported('element expression may raise')
+        res0 = self.eval(node, s2)
+        res, raising = [], []
+        for ps, x in res0:
+            if isinstance(ps, tuple):
+                # a raising sub-path ((state, ('raise', exc)), None): "the element expression does
+                # not raise" is an obligation of whoever evaluates the element
+                rs = ps[0]
+                cond = z3.And(*rs.pc[npc:]) if len(rs.pc) > npc else z3.BoolVal(True)
+                raising.append((ps[1][1], list(rs.pc[:npc]) + list(rs.facts), z3.Not(cond)))
+                continue
+            res.append((ps, x))
+        if not res:
+            raise Unsupported('element expression always raises')
+        for exc, hyps, f in raising:
+            # recorded on every surviving path state (they are what the caller reads checks from)
+            for ps, _ in res:
+                ps.checks.append((f'element expression does not raise {exc}', hyps, f))
         conds = [z3.And(*ps.pc[npc:]) if len(ps.pc) > npc else z3.BoolVal(True) for ps, _ in res]
         v = self.merge_branch_values([(c, x) for c, (_, x) in zip(conds, res)])
         return v, [(c, ps) for c, (ps, _) in zip(conds, res)]
